@@ -39,11 +39,11 @@ type behaviour struct {
 	status int // 0 implicit
 	hdr    int // 0 none, 1 multi-valued, 2 explicit Content-Length
 	body   int // 0 none, 1 small, 2 three writes
-	mode   int // 0 plain, 1 flush between writes, 2 hijack
+	mode   int // 0 plain, 1 flush between writes, 2 hijack, 3 informational 103 before the final status
 }
 
 func (b behaviour) String() string {
-	return fmt.Sprintf("status=%d hdr=%d body=%d mode=%s", b.status, b.hdr, b.body, []string{"plain", "flush", "hijack"}[b.mode])
+	return fmt.Sprintf("status=%d hdr=%d body=%d mode=%s", b.status, b.hdr, b.body, []string{"plain", "flush", "hijack", "early-hints"}[b.mode])
 }
 
 func behaviours() []behaviour {
@@ -55,7 +55,8 @@ func behaviours() []behaviour {
 			}
 		}
 	}
-	out = append(out, behaviour{200, 1, 2, 1}, behaviour{0, 0, 2, 1}, behaviour{200, 0, 0, 2})
+	out = append(out, behaviour{200, 1, 2, 1}, behaviour{0, 0, 2, 1}, behaviour{200, 0, 0, 2},
+		behaviour{404, 1, 1, 3}, behaviour{500, 0, 2, 3}, behaviour{0, 0, 1, 3})
 	return out
 }
 
@@ -123,6 +124,11 @@ func (w *world) inner() http.Handler {
 			rw.Header().Set("X-Single", "s")
 		case 2:
 			rw.Header().Set("Content-Length", fmt.Sprint(len(strings.Join(parts, ""))))
+		}
+		if b.mode == 3 {
+			rw.Header().Set("Link", "</style.css>; rel=preload")
+			rw.WriteHeader(http.StatusEarlyHints) // informational: the final status is still to come
+			rw.Header().Del("Link")
 		}
 		if b.status != 0 {
 			rw.WriteHeader(b.status)
@@ -231,7 +237,8 @@ type result struct {
 	header http.Header
 	body   []byte
 	nresp  int
-	early  bool // the flushed first chunk was seen before the rest was written
+	info   []int // informational (1xx) responses that preceded the final one
+	early  bool  // the flushed first chunk was seen before the rest was written
 	err    string
 	raw    []byte
 }
@@ -276,6 +283,11 @@ func (w *world) exchange(body []byte, wantEarly string) result {
 	res.nresp = len(rs)
 	if perr != nil {
 		res.err = perr.Error()
+	}
+	for len(rs) > 1 && rs[0].StatusCode >= 100 && rs[0].StatusCode < 200 {
+		res.info = append(res.info, rs[0].StatusCode)
+		rs, bodies = rs[1:], bodies[1:]
+		res.nresp--
 	}
 	if len(rs) > 0 {
 		res.status, res.header, res.body = rs[0].StatusCode, rs[0].Header, bodies[0]
@@ -359,7 +371,7 @@ func runStack(w *world, ks []string, base map[behaviour]result, rep *lib.Report)
 		rep.Evaluations++
 		want := base[b]
 		what := map[string]any{"engine": "enum", "part": "c20", "stack": name, "behaviour": b.String(), "mode": "transparent"}
-		cls := []string{"plain", "flush", "hijack"}[b.mode]
+		cls := []string{"plain", "flush", "hijack", "early-hints"}[b.mode]
 		if b.status == 0 {
 			cls += "+implicit-status"
 		}
@@ -373,6 +385,8 @@ func runStack(w *world, ks []string, base map[behaviour]result, rep *lib.Report)
 			rep.Violate("C20:handler-invocations:"+cls, fmt.Sprintf("[%s] %v: handler invoked %d times, want exactly once (client got status %d)", name, b, inv, res.status), what)
 		case res.nresp != 1 || res.err != "":
 			rep.Violate("C20:not-one-response:"+cls, fmt.Sprintf("[%s] %v: client received %d responses (%s): %.100q", name, b, res.nresp, res.err, res.raw), what)
+		case !hasBuffer && fmt.Sprint(res.info) != fmt.Sprint(want.info):
+			rep.Violate("C20:informational-responses-altered:"+cls, fmt.Sprintf("[%s] %v: informational responses %v through the stack, %v from the bare handler", name, b, res.info, want.info), what)
 		case res.status != want.status:
 			rep.Violate("C20:status-altered:"+cls, fmt.Sprintf("[%s] %v: status %d through the stack, %d from the bare handler", name, b, res.status, want.status), what)
 		case !bytes.Equal(res.body, want.body):
@@ -392,6 +406,9 @@ func runStack(w *world, ks []string, base map[behaviour]result, rep *lib.Report)
 			}
 			if b.mode == 2 {
 				rep.Count("hijacked_exchanges")
+			}
+			if b.mode == 3 {
+				rep.Count("early_hints_exchanges")
 			}
 			continue
 		}
@@ -463,7 +480,7 @@ func baseline(w *world, rep *lib.Report) map[behaviour]result {
 			early = "part-one|"
 		}
 		r := w.exchange(nil, early)
-		if r.nresp != 1 || (b.mode == 1 && !r.early) {
+		if r.nresp != 1 || (b.mode == 1 && !r.early) || (b.mode == 3 && fmt.Sprint(r.info) != "[103]") {
 			rep.DistrustF("baseline exchange with the bare handler failed for %v: %d responses, early=%v err=%s", b, r.nresp, r.early, r.err)
 		}
 		out[b] = r
@@ -482,7 +499,7 @@ func Run(tier string, sh lib.Shard, rep *lib.Report) {
 	rep.Bounds["handler_behaviours"] = len(behaviours())
 	rep.Rule = "every stack of depth <= max over {stream, trace, connlimit, ratelimit, cbreaker, roundrobin, rebalancer(roundrobin), buffer} x every handler behaviour (status incl. implicit x header set x body chunking, flush between writes, hijack) served by a real net/http server to a raw TCP client, compared with the bare handler on the same server; per stack and position one configuration in which exactly that middleware intervenes; non-trivial = exchanges through stacks of depth >= 2"
 	rep.Assume("frozen clock; Content-Length/Transfer-Encoding framing headers chosen by net/http are not compared unless the handler set Content-Length itself")
-	rep.Require("transparent_exchanges", "interventions_checked", "streamed_chunks_observed_early", "hijacked_exchanges")
+	rep.Require("transparent_exchanges", "interventions_checked", "streamed_chunks_observed_early", "hijacked_exchanges", "early_hints_exchanges")
 	w := newWorld()
 	defer w.srv.Close()
 	base := baseline(w, rep)
